@@ -251,7 +251,7 @@ func (r *lruRoles) gocScope() map[*ssa.Function]bool {
 
 // firstRooted reports whether a key operand is the key items.First() returned, through any chain of copies.
 func (r *lruRoles) firstRooted(key ssa.Value) bool {
-	return r.firstRootedOld(key) || r.firstKeyC(r.prog, key, 0)
+	return r.firstRootedOld(key) || r.firstKeyC(r.prog, key, 0) || r.firstRootedParamU(key, 0)
 }
 
 func (r *lruRoles) firstRootedOld(key ssa.Value) bool {
@@ -377,6 +377,7 @@ func lruSequentialRules(c *Ctx, pfx string) {
 			})
 		})
 	}
+	c.sharedRemovalSitesU(r, pfx+"1") // v_lru_u.go
 	c.R.Floor(pfx+"1", 6)
 
 	goc := r.getOrCreate
@@ -1052,6 +1053,7 @@ func runC09(c *Ctx) {
 			}
 		})
 	}
+	c.sharedSitesU(r, "C09.R1", "list access", 1, func(in ssa.Instruction) bool { return r.anyItemsCall(in) != nil }) // v_lru_u.go
 	c.R.Floor("C09.R1", 14)
 
 	goc := r.getOrCreate
@@ -1308,6 +1310,7 @@ func runC09(c *Ctx) {
 			}
 		})
 	}
+	c.sharedSitesU(r, "C09.R5", "callback site", 2, func(in ssa.Instruction) bool { cb, _, _ := r.cbCall(in); return cb != nil }) // v_lru_u.go
 	c.R.Floor("C09.R5", 6)
 
 	// R6-R8 (z_c08_lru.go): operations are single critical sections; a looked-up value is re-inserted in the section
